@@ -63,6 +63,40 @@ func c11Birth(c *core.Ctx) {
 			return true
 		})
 	}
+	// type switches on a Filter: the guard `x.(type)` considers every capability named in a case
+	guardCaps := map[*ast.TypeAssertExpr][]string{}
+	for _, file := range pkg.Syntax {
+		ast.Inspect(file, func(x ast.Node) bool {
+			ts, ok := x.(*ast.TypeSwitchStmt)
+			if !ok {
+				return true
+			}
+			var guard *ast.TypeAssertExpr
+			ast.Inspect(ts.Assign, func(y ast.Node) bool {
+				if ta, ok := y.(*ast.TypeAssertExpr); ok && ta.Type == nil {
+					guard = ta
+				}
+				return true
+			})
+			if guard == nil {
+				return true
+			}
+			if xv, ok := pkg.TypesInfo.Types[guard.X]; !ok || xv.Type == nil || !isFilterT(xv.Type) {
+				return true
+			}
+			for _, cl := range ts.Body.List {
+				for _, e := range cl.(*ast.CaseClause).List {
+					if tv, ok := pkg.TypesInfo.Types[e]; ok && tv.Type != nil {
+						if n, ok := types.Unalias(tv.Type).(*types.Named); ok && n.Obj().Pkg() != nil && n.Obj().Pkg().Path() == filtersPath && types.IsInterface(n) && n.Obj().Name() != "Filter" {
+							capSet[n.Obj().Name()] = true
+							guardCaps[guard] = append(guardCaps[guard], n.Obj().Name())
+						}
+					}
+				}
+			}
+			return true
+		})
+	}
 	capOf := func(t types.Type) string {
 		n, ok := types.Unalias(t).(*types.Named)
 		if !ok || n.Obj().Pkg() == nil || n.Obj().Pkg().Path() != filtersPath || !capSet[n.Obj().Name()] {
@@ -77,6 +111,7 @@ func c11Birth(c *core.Ctx) {
 			case *ast.FuncLit:
 				return false
 			case *ast.TypeAssertExpr:
+				out = append(out, guardCaps[t]...)
 				if t.Type != nil {
 					if tv, ok := g.Info.Types[t.Type]; ok && tv.Type != nil {
 						if name := capOf(tv.Type); name != "" {
